@@ -230,6 +230,31 @@ def run(ctx):
                               {"config": cfg, "layout": lname, "P": P.tolist(), "A": None if A is None else A.tolist()},
                               expected=G[:2].tolist(), actual=Gl[:2].tolist(), key=f"layout:{cfg}", how=how)
                 break
+    # the same clause for objectives built with a NON-default epsilon (seeded change C02-13: one class clipped at the default bound
+    # whatever epsilon it was given): entries outside [epsilon, 1 - epsilon] — not clipped at 1e-12 — must have exactly zero gradient
+    for e2 in (1e-3, 1e-2):
+        for cls, ovo in gl.CONFIGS:
+            cfg = f"{cls}_{'ovo' if ovo else 'ova'}"
+            n, K = 6, 3
+            P = gl.gen_P(rs, n, K, "soft")
+            P[0] = [1 - 2e-6, 1e-6, 1e-6]
+            P[1] = [e2 / 4, 1 - e2 / 2, e2 / 4]
+            P[2] = [0.5, 0.5 - e2 / 10, e2 / 10]
+            A = gl.gen_affinity(rs, n, "rbf" if cls == "mmd" else "euclidean") if cls in ("mmd", "wass") else None
+            try:
+                (s, G), _ = gl.impl_eval(cls, ovo, e2, P, A, grad=True)
+            except Exception as e:
+                ctx.violation(f"evaluate raised with epsilon={e2:g}: {type(e).__name__}: {e}", "grad", {"config": cfg, "P": P.tolist(), "epsilon": e2},
+                              key=f"raise-eps:{cfg}", how=how)
+                continue
+            ctx.compared("clipped-zero-eps:" + cfg)
+            G = np.asarray(G, float)
+            out = (P < e2) | (P > 1 - e2)
+            if G.shape != P.shape or (G[out] != 0).any():
+                ctx.violation(f"entries clipped at the bounds of epsilon={e2:g} received a non-zero gradient", "grad",
+                              {"config": cfg, "epsilon": e2, "P": P.tolist(), "A": None if A is None else A.tolist()},
+                              expected="G[(P < epsilon) | (P > 1 - epsilon)] == 0", actual=G[:3].tolist() if G.shape == P.shape else list(G.shape),
+                              key=f"clipped-eps:{cfg}", how=how)
     # another objective created in between (with another epsilon) is none of this object's business: score and gradient of the FIRST
     # object must still be those of its own epsilon
     for cls, ovo in gl.CONFIGS:
